@@ -192,7 +192,8 @@ class World(BaseWorld):
         cfgmod = self.cfgmod
         prods = []
         for p in op["productions"]:
-            prods.append(cfgmod.Word(p["name"], Ty(p["cod"]), dom=Ty(*p["dom"])))
+            cod = Ty(*p["cod"]) if isinstance(p["cod"], list) else Ty(p["cod"])
+            prods.append(cfgmod.Word(p["name"], cod, dom=Ty(*p["dom"])))
         g = cfgmod.CFG(*prods)
         self.grammars[op["slot"]] = {"real": g, "prods": prods, "spec": op["productions"],
                                      "fp": repr(g.productions)}
@@ -454,6 +455,12 @@ class Driver:
             else:
                 dom = [gen.choice(self.symbols) for _ in range(gen.randint(1, 3))]
             prods.append({"name": "p%d" % k, "cod": cod, "dom": dom})
+        if gen.random() < 0.15:
+            # a box whose codomain is not one symbol: a grammar may contain it, but no
+            # derivation step rewrites a single symbol with it, so it can never be used
+            prods.append({"name": "wide", "cod": [gen.choice(self.symbols), gen.choice(self.symbols)],
+                          "dom": [gen.choice(self.symbols)] if gen.random() < 0.5 else []})
+            self.wide = True
         return prods
 
     def shuffles(self, n=12):
